@@ -400,14 +400,38 @@ def popEN (g : State) : State :=
 /-- the getters, as `Grid`'s lazy properties: `none` = the request raises -/
 def getEN (g : State) : State := if g.en.isSome then g else popEN g
 
-/-- `_populate_face_edge_connectivity`: rebuild the edges unless `inverse_indices` is there, then
-    reshape it to `(n_face, n_max_face_nodes)` -/
+/-- `_inverse_indices_from_edge_nodes` for one face row: every slot's (sorted) node pair is looked up
+    among the sorted rows of the GIVEN edge table (first match); padding slots stay `FILL`; `none` when a
+    pair is not listed -/
+def lookupRow (E : List (Int × Int)) (r : List Int) : Option (List Int) :=
+  (Edges.rowPairs r).mapM (fun p =>
+    if Edges.hasFill p then some FILL
+    else
+      let i := (E.map sortPair).idxOf p
+      if i < E.length then some (Int.ofNat i) else none)
+
+/-- the faces' edges looked up in a source-supplied `edge_node_connectivity` (any order of the rows, any
+    orientation of a row); `none` when the table does not list every edge of the faces -/
+def lookupFE (t : Table) (E : List (Int × Int)) : Option Table := t.mapM (lookupRow E)
+
+/-- reshape `inverse_indices` to `(n_face, n_max_face_nodes)` -/
+def finishFE (g : State) : Option State :=
+  match g.inv with
+  | none => none
+  | some v => if v.length = g.t.length * g.w then some { g with fe := some (reshape g.w v) } else none
+
+/-- `_populate_face_edge_connectivity` (as repaired by 54ba6780): an `edge_node_connectivity` that came
+    with the source (no `inverse_indices` attribute) is KEPT and every face's edges are looked up in it;
+    only when it does not list every edge of the faces, or when there is none, the edges are (re)built. -/
 def getFE (g : State) : Option State :=
   if g.fe.isSome then some g else
-    let g := if g.en.isNone || g.inv.isNone then popEN g else g
-    match g.inv with
-    | none => none
-    | some v => if v.length = g.t.length * g.w then some { g with fe := some (reshape g.w v) } else none
+    match g.en, g.inv with
+    | some E, none =>
+      match lookupFE g.t E with
+      | some F => some { g with fe := some F }
+      | none => finishFE (popEN g)
+    | some _, some _ => finishFE g
+    | none, _ => finishFE (popEN g)
 
 def getNPF (g : State) : State :=
   if g.npf.isSome then g else { g with npf := some (Edges.nNodesPerFace g.t) }
